@@ -41,6 +41,11 @@
 (* OpKinds "rtupd" = modRoute <key> prefix=...  The operations offered for   *)
 (* ov2 are those of the table AFTER ov1 (indexes 0..n-1 of n destinations    *)
 (* before: the last one is valid before the delete and beyond the end after).*)
+(* Overlap + FeGate (kind "tovl", the TABLE): ov1 is the delete of the gate   *)
+(* aggregator (index 0 of agg) -- Table.DelAggregator waits inside the       *)
+(* aggregator's Shutdown (its goroutine asks the driver's mock clock), the   *)
+(* table lock held, the configuration loaded and not yet stored; ov2 is any  *)
+(* operation on any list of the table.                                       *)
 EXTENDS TableOps, TLC, Json
 
 CONSTANTS InitN, MaxOps, NDisp, Classes, AddFilters, UpdFilters, OpKinds, StepWise, DelTail,
@@ -72,7 +77,9 @@ KeysNow == IF FeGate THEN {KeyOf(Main[i].id) : i \in 1..Len(Main)} ELSE {KeyOf(e
 DelIdx  == IF DelTail THEN {IF Len(Main) = 0 THEN 0 ELSE Len(Main) - 1} ELSE 0..Len(Main)
 DelKeys == IF DelTail THEN (IF Len(Main) = 0 THEN {} ELSE {KeyOf(Main[Len(Main)].id)}) ELSE KeysNow
 \* the gate aggregator (index 0 of agg) is never deleted; refused indexes are covered by the per-list kinds
-FeDelIdx(x) == IF x = "agg" /\ FeGate THEN 1..(Len(cur[x]) - 1) ELSE 0..(Len(cur[x]) - 1)
+\* (Overlap: the gate aggregator is what ov1 deletes; and the index beyond the end is offered, see above)
+FeDelIdx(x) == IF Overlap THEN 0..Len(cur[x])
+               ELSE IF x = "agg" /\ FeGate THEN 1..(Len(cur[x]) - 1) ELSE 0..(Len(cur[x]) - 1)
 Choices ==
   (IF "add" \in OpKinds THEN {Rec("op", 0, 0, "main", "add", nextId, f, 0, 0) : f \in AddFilters} ELSE {})
   \cup (IF "delidx" \in OpKinds THEN {Rec("op", 0, 0, "main", "delidx", 0, 0, i, 0) : i \in DelIdx} ELSE {})
@@ -89,9 +96,12 @@ AtFront == \E d \in Disp : dst[d] = "front"
 
 \* Overlap: how the operation is issued -- "op" on its own, "ov1" parked half-way, "ov2" while ov1 is parked
 HasOv1 == \E i \in 1..Len(hist) : hist[i].ev = "ov1"
+\* the operations the driver can park half-way, between their Load and their Store, the mutex held
+Parkable(o) == IF FeGate THEN o.l = "agg" /\ o.op = "delidx" /\ o.i = 0 /\ cur.agg # <<>> /\ cur.agg[1].id = GateId
+               ELSE o.l = "main" /\ o.op = "delidx" /\ o.i < Len(Main)
 Labels(o) == IF ~Overlap THEN {"op"}
              ELSE IF hist # <<>> /\ hist[Len(hist)].ev = "ov1" THEN {"ov2"}
-             ELSE IF nops = MaxOps - 2 /\ o.l = "main" /\ o.op = "delidx" /\ o.i < Len(Main) THEN {"op", "ov1"}
+             ELSE IF nops = MaxOps - 2 /\ Parkable(o) THEN {"op", "ov1"}
              ELSE {"op"}
 
 SOp(o) == /\ nops < MaxOps /\ nops' = nops + 1
